@@ -78,6 +78,7 @@ def check(run: Run, prog: Program, model: Model, tier: str) -> None:
         " Two members deep, the member pinned at position j derives from value[j] (no equality-keyed memo); an exact element list generates one member per element under every length prop-set; the conversion used for free-form positions is not memoised by equality.")
     run.explanation += " GIVEN-KEYS (inside DICT-TABLE): a key of the value that the table does not declare is refused - a condition over all keys of the value is tested on the path, or the pre-validation of that table has an extra-key row. NATIVE-CONTRACT: C14's ARM/FINAL obligations for from_native are re-derived, because free positions rely on them."
     run.explanation += ' CONTAINER-VALIDATED: every list / dict returned by Substitutor.visit_list / visit_dict was handed to the pre-validation on the same path (a flag in kwargs that skips it is a violation).'
+    run.explanation += " KIND-GUARD: the validator's first decision for every kind the conversion produces is isinstance(value, K) - the conversion classifies by isinstance, an exact type(value) is K would refuse the IntEnum member / str subclass it pinned."
     run.rule_text = "obligations per (visit method, prop-set/shape) and clause; non-trivial = result tables computed on interpreter paths"
     from ..entry import entry_transparent
     entry_transparent(run, prog, model, "validate", "VALIDATE-ENTRY")
@@ -439,6 +440,15 @@ def _list_cover(run: Run, prog: Program, model: Model, tier: str) -> None:
     from .c14 import _memo, native_contract
     native_contract(run, prog, model, tier, "at a position the schema leaves open the result then rejects the very value that was "
                     "substituted, although the original accepts it")
+    # ... and the schema an arm produces must accept what the arm admitted: the arms classify by isinstance(value, K), so
+    # the validator's guard for K has to be isinstance(value, K) too - an exact `type(value) is K` refuses the IntEnum member,
+    # the str subclass, the bool the conversion pinned as such
+    from .c02 import TYPE, _type_first
+    for hook, f in sorted(model.visit_methods("Validator").items()):
+        st = model.by_hook.get(hook)
+        if hook in TYPE and st is not None:
+            _type_first(run, prog, model, "Validator", hook, f, st, rule="KIND-GUARD")
+    run.floor("KIND-GUARD", 8)
     conv = model.visitors["Substitutor"].lookup("_from_native")
     _memo(run, prog, model, prog.func("d42.utils._from_native.from_native"), rule="CONVERT-PURE",
           roots=[conv] if conv is not None else None, prefixes=("d42.utils", "d42.substitution"))
@@ -499,4 +509,10 @@ MUTANTS += [
                ('d42/substitution/_substitutor.py', '\n        # head\n        if (len(elements) >= 2) and is_ellipsis(elements[-1]):\n            substituted = self._substitute_elements(value, elements[:-1], **kwargs)\n            return schema.__class__(schema.props.update(elements=substituted))\n\n        # tail\n        if (len(elements) >= 1) and is_ellipsis(elements[0]):\n            elements = elements[1:]\n            index = max(0, len(value) - len(elements))\n            substituted = self._substitute_elements(value, elements, index, **kwargs)\n            return schema.__class__(schema.props.update(elements=substituted))\n\n        substituted = self._substitute_elements(value, elements, **kwargs)\n        return schema.__class__(schema.props.update(elements=substituted))\n\n    def visit_dict(self, schema: DictSchema, *, value: Any = Nil, **kwargs: Any) -> DictSchema:\n        result = schema.__accept__(self._validator, value=value)\n        if result.has_errors():\n            raise make_substitution_error(result, self._formatter)\n\n        keys: Dict[Any, Any] = {}\n        if schema.props.keys is Nil or (len(schema.props.keys) == 1 and ... in schema.props.keys):\n', '\n        # head\n        if (len(elements) >= 2) and is_ellipsis(elements[-1]):\n            substituted = self._substitute_elements(value, elements[:-1], **nested)\n            return schema.__class__(schema.props.update(elements=substituted))\n\n        # tail\n        if (len(elements) >= 1) and is_ellipsis(elements[0]):\n            elements = elements[1:]\n            index = max(0, len(value) - len(elements))\n            substituted = self._substitute_elements(value, elements, index, **nested)\n            return schema.__class__(schema.props.update(elements=substituted))\n\n        substituted = self._substitute_elements(value, elements, **nested)\n        return schema.__class__(schema.props.update(elements=substituted))\n\n    def visit_dict(self, schema: DictSchema, *, value: Any = Nil, **kwargs: Any) -> DictSchema:\n        self._validate_container(schema, value, kwargs)\n        nested = {**kwargs, "validated": True}\n\n        keys: Dict[Any, Any] = {}\n        if schema.props.keys is Nil or (len(schema.props.keys) == 1 and ... in schema.props.keys):\n'),
                ('d42/substitution/_substitutor.py', '                    if is_ellipsis(value[key]):\n                        keys[key] = (val, False)\n                    else:\n                        keys[key] = (val.__accept__(self, value=value[key], **kwargs), False)\n                else:\n                    keys[key] = (val, is_optional)\n            for key, val in value.items():\n', '                    if is_ellipsis(value[key]):\n                        keys[key] = (val, False)\n                    else:\n                        keys[key] = (val.__accept__(self, value=value[key], **nested), False)\n                else:\n                    keys[key] = (val, is_optional)\n            for key, val in value.items():\n'),
                ('d42/substitution/_substitutor.py', '        if result.has_errors():\n            raise make_substitution_error(result, self._formatter)\n\n        types = []\n        if schema.props.types is Nil:\n            types.append(self._from_native(value))\n', '        if result.has_errors():\n            raise make_substitution_error(result, self._formatter)\n\n        # which alternatives fit is found out by substituting into each of them\n        kwargs.pop("validated", None)\n        types = []\n        if schema.props.types is Nil:\n            types.append(self._from_native(value))\n')]},
+]
+
+# round 8: the seeded changes that were missed on first contact, replayed against the current tree
+MUTANTS += [
+    {"name": 'seeded C04-P', "rule": 'KIND-GUARD',
+     "edits": [('d42/validation/_validator.py', '\n    def _validate_type(self, path: PathHolder, value: Any,\n                       expected_type: Type[Any]) -> Optional[ValidationError]:\n        if not isinstance(value, expected_type):\n            return TypeValidationError(path, value, expected_type)\n        return None\n\n', '\n    def _validate_type(self, path: PathHolder, value: Any,\n                       expected_type: Type[Any]) -> Optional[ValidationError]:\n        if expected_type in (list, dict):\n            is_expected = isinstance(value, expected_type)\n        else:\n            # bool is a subclass of int and datetime is a subclass of date,\n            # scalars have to be of the declared type itself\n            is_expected = type(value) is expected_type\n        if not is_expected:\n            return TypeValidationError(path, value, expected_type)\n        return None\n\n')]},
 ]
